@@ -22,7 +22,9 @@ None == "-"
 NoVal == [t |-> "none", s |-> "", xs |-> <<>>]
 
 (* comment texts, frontmatter texts, annotations: small fixed pools *)
-CommentText(c) == CASE c = "c1" -> "note one" [] c = "c2" -> "second: a -> b" [] c = "c3" -> "x" [] OTHER -> "?"
+CommentText(c) == CASE c = "c1" -> "note one" [] c = "c2" -> "second: a -> b" [] c = "c3" -> "was \"ROLE\" then AGENT{primary}" [] OTHER -> "?"
+(* the same text in the {Uxxxx} encoding of observations *)
+CommentEnc(c) == IF c = "c3" THEN "was \"ROLE\" then AGENT{U007B}primary}" ELSE CommentText(c)
 CommentIds == {"c1", "c2", "c3"}
 FmLines(f) == CASE f = "fm1" -> <<"name: Agent (Specialist)", "tags: [a, b]">>
                 [] f = "fm2" -> <<"title: x">>
@@ -48,12 +50,12 @@ WellFormed(body) == WellFormedFrom(body, 1)
 AbsItem(it) ==
   [d     |-> IF it.k = "comment" THEN 0 ELSE it.d,      \* comments: order matters, depth is layout
    k     |-> it.k,
-   key   |-> IF it.k = "comment" THEN CommentText(it.key) ELSE it.key,
+   key   |-> IF it.k = "comment" THEN CommentEnc(it.key) ELSE it.key,
    v     |-> IF it.k = "assign" THEN Abs(it.v) ELSE NoVal,
    tgt   |-> it.tgt,
    sid   |-> it.sid,
    ann   |-> AnnText(it.ann),
-   trail |-> IF it.trail = None THEN None ELSE CommentText(it.trail)]
+   trail |-> IF it.trail = None THEN None ELSE CommentEnc(it.trail)]
 
 AbsBody(doc) == [i \in 1..Len(doc.body) |-> AbsItem(doc.body[i])]
 
